@@ -104,20 +104,20 @@ static void note(const char *what, const void *p, size_t size) {
 /* release quarantined blocks for real; live blocks stay */
 void aw_flush(void) {
     if(!tab_cap) return;
-    struct aw_ent *nt = __real_calloc(tab_cap, sizeof(*nt));
-    if(!nt) { fprintf(stderr, "allocwrap: out of memory for the ledger\n"); _exit(70); }
-    size_t used = 0;
+    size_t nl = 0;
+    struct aw_ent *keep = live_count ? __real_malloc(live_count * sizeof(*keep)) : 0;
     for(size_t i = 0; i < tab_cap; i++) {
         if(tab[i].state == AW_FREED) {
             AW_UNPOISON(tab[i].ptr, tab[i].size);
             __real_free(tab[i].ptr);
-        } else if(tab[i].state == AW_LIVE) {
-            insert_raw(nt, tab_cap, tab[i].ptr, tab[i].size, AW_LIVE);
-            used++;
+        } else if(tab[i].state == AW_LIVE && keep) {
+            keep[nl++] = tab[i];
         }
     }
-    __real_free(tab);
-    tab = nt; tab_used = used; quarantine_bytes = 0;
+    memset(tab, 0, tab_cap * sizeof(*tab));
+    for(size_t i = 0; i < nl; i++) insert_raw(tab, tab_cap, keep[i].ptr, keep[i].size, AW_LIVE);
+    __real_free(keep);
+    tab_used = nl; quarantine_bytes = 0;
 }
 
 static void record(void *p, size_t size) {
